@@ -80,6 +80,9 @@ def guarded(mod, spec):
     import signal
 
     breadcrumb(spec)
+    from hv import sparse
+
+    sparse.FLAVOURS = bool(isinstance(spec, dict) and spec.get("flavours"))
     signal.signal(signal.SIGPROF, _on_timer)
     signal.setitimer(signal.ITIMER_PROF, CASE_CPU_S, CASE_CPU_S)
     try:
